@@ -789,7 +789,7 @@ fn main() {
         }
     }
     // ---- random retry-heavy histories
-    let cases = if thorough { 100000 } else { 2500 };
+    let cases = if thorough { 100000 } else { 6000 };
     for i in 0..cases {
         let n = [1usize, 2, 4, 8][(i % 4) as usize];
         random_case(&mut rng, n, &mut rep);
